@@ -191,12 +191,31 @@ pub fn storable(kind: Kind, data: &str) -> bool {
         return false;
     }
     match kind {
-        Kind::Text => !data.contains('<') && !data.contains('&') && !data.contains("]]>"),
+        // (`]]>` is ordinary text data: the serialiser writes the `>` as a reference)
+        Kind::Text => !data.contains('<') && !data.contains('&'),
         Kind::Comment => !data.contains("--") && !data.ends_with('-'),
         Kind::CData => !data.contains("]]>"),
         Kind::PI => !data.contains("?>"),
         _ => true,
     }
+}
+
+/// does the text contain a '>' that must be written as a reference in element content?
+pub fn gt_needs_reference(data: &str) -> bool {
+    let mut brackets = 0;
+    let mut only_brackets = true;
+    for c in data.chars() {
+        if c == '>' && (brackets >= 2 || only_brackets) {
+            return true;
+        }
+        if c == ']' {
+            brackets += 1;
+        } else {
+            brackets = 0;
+            only_brackets = false;
+        }
+    }
+    false
 }
 
 /// Does the fragment contain a character that is markup-significant for this kind?
@@ -205,7 +224,7 @@ pub fn risky(kind: Kind, s: &str) -> bool {
         return true;
     }
     match kind {
-        Kind::Text => s.contains(|c| "<&]>\r".contains(c)),
+        Kind::Text => s.contains(|c| "<&\r".contains(c)),
         Kind::Comment => s.contains('-') || s.contains('\r'),
         Kind::CData => s.contains(|c| "]>\r".contains(c)),
         Kind::PI => s.contains(|c| "?>\r".contains(c)) || s.starts_with(|c: char| c.is_whitespace()),
@@ -484,8 +503,9 @@ impl Model {
             for c in &n.children {
                 let k = &self.nodes[*c];
                 if k.kind == Kind::Text {
-                    // '>' is serialised as a reference, i.e. re-parses as a separate node
-                    if k.data.is_empty() || prev_text || k.data.contains('>') {
+                    // a '>' that could close a CDATA section (after `]]`, or with only `]` before it in this
+                    // node) is serialised as a reference, i.e. re-parses as a separate node
+                    if k.data.is_empty() || prev_text || gt_needs_reference(&k.data) {
                         return false;
                     }
                     prev_text = true;
